@@ -39,6 +39,8 @@ def generate(seed, stratum, tier):
     clients[c].insert(0, ['sleep', 0.001])
   objs = aw.default_objects(1, spied=rng.random() < 0.7)
   objs[0]['instrumented'] = rng.random() < 0.75
+  if cap != 500 and rng.random() < 0.3:
+    objs[0]['class_cap'] = rng.choice([8, 12, 20])      # the object's class declares a larger QUEUE_SIZE of its own
   if rng.random() < 0.4:
     objs[0]['react'] = {'SA': [{'op': rng.choice(['post_fifo', 'post_lifo']), 'sig': 'SB', 'id': 1, 'max': 2}]}
   horizon = None
